@@ -197,6 +197,40 @@ def in_known_class(cmd, args):
     return None
 
 
+_FLAGS_CACHE = {}
+
+
+def command_flags():
+    """option flags per command alias, read from the sources of the commands (every string literal that looks like an
+    option: "-x" / "--word"), so that a new option is exercised as soon as it exists"""
+    if _FLAGS_CACHE:
+        return _FLAGS_CACHE
+    import glob
+    import re
+    root = os.path.join(vlib.REPO, "duckscript_sdk", "src", "sdk", "std")
+    for f in glob.glob(os.path.join(root, "**", "mod.rs"), recursive=True):
+        try:
+            src = open(f, encoding="utf8").read()
+        except OSError:
+            continue
+        m = re.search(r"fn aliases\(&self\) -> Vec<String> \{\s*vec!\[(.*?)\]", src, re.S)
+        if not m:
+            continue
+        aliases = re.findall(r'"([^"]+)"', m.group(1))
+        flags = sorted(set(re.findall(r'"(--?[a-z][a-z_-]*)"', src)))
+        if not flags:
+            # helpers next to the command (e.g. json/mod.rs) may hold the literal
+            continue
+        for a in aliases:
+            _FLAGS_CACHE[a] = flags
+    for a in ("json_parse", "json_encode"):
+        _FLAGS_CACHE.setdefault(a, ["--collection"])
+    return _FLAGS_CACHE
+
+
+CALC_OPS = ["+", "-", "*", "/", "%", "^"]
+
+
 def gen_script(rng):
     lines = prelude()
     outs = []
@@ -220,6 +254,17 @@ def gen_script(rng):
                 i += 1
         if rng.random() < 0.05:
             args.append(pick(rng, "S", outs))   # one too many
+        fl = command_flags().get(cmd)
+        if fl and rng.random() < 0.35:
+            r = rng.random()
+            if r < 0.3:
+                args = [rng.choice(fl)]                      # the option alone, nothing after it
+            elif r < 0.8:
+                args = [rng.choice(fl)] + args               # the option in front
+            else:
+                args = args + [rng.choice(fl)]               # ... or behind
+        if cmd == "calc" and rng.random() < 0.4:
+            args = [rng.choice(NUMS), rng.choice(CALC_OPS), rng.choice(NUMS)]   # <int> <op> <int> incl. the i64 extremes
         if any(a in HAZARD_WORDS for a in args):
             continue
         if in_known_class(cmd, args):
@@ -399,6 +444,16 @@ def run(ck):
         else:
             texts.append(rng.choice(SYNTAX).join(rng.choice(STRS) for _ in range(rng.randint(1, 6))))
     scripts = [gen_script(rng) for _ in range(40000 if thorough else 6000)]
+    # exhaustive small scope over the integer extremes for the arithmetic / comparison / conversion commands (checked
+    # arithmetic corner cases such as i64::MIN / -1 need exactly these operands)
+    EXT = ["-9223372036854775808", "9223372036854775807", "-1", "0", "1", "2", "18446744073709551615", "-9223372036854775809"]
+    for a_ in EXT:
+        for b_ in EXT:
+            scripts.append("\n".join(["r%d = calc %s %s %s" % (k_, a_, op, b_) for k_, op in enumerate(CALC_OPS)] +
+                                     ["g = greater_than %s %s" % (a_, b_), "l = less_than %s %s" % (a_, b_), "rg = range %s %s" % (a_, b_)
+                                      if in_known_class("range", [a_, b_]) is None else "noop",
+                                      "h = hex_encode %s" % a_, "rr = random_range %s %s" % (a_, b_),
+                                      "sub = substring hello %s %s" % (a_, b_)]) + "\n")
     lines = ["S\t" + enc_str(t) for t in texts + scripts]
     res = run_cases(ck, lines, "main")
     dist = {}
